@@ -32,7 +32,7 @@ ASSUMPTIONS = [
 KERNEL_SAMPLE = {"quick": 120, "thorough": 1000}
 KERNEL_MAXLEN = 2500
 TRUSTED_BASE = ["lib/scheme_ref.py: reference interpreter written from R7RS (an oracle used to classify outputs, not a proof)"]
-MODEL_VOCAB_WIDE = False
+MODEL_VOCAB_WIDE = True       # the merged model has the list/vector/predicate builtins: wide sessions go three-way
 
 MANIFEST = dict(
     text='Coq theorems (coq/Props/C05.v) about the VM model for ANY builtin table: call/cc captures slots 0..=sp, sp/ep/bp and the address after the call, then re-dispatches as an ordinary application; invoking a continuation from any state restores exactly the saved slots and registers, delivers the value in %acc and leaves heap, Rc payloads, globals and output untouched; it does not modify the continuation object (reusable); zero arguments is an error. Tie: generated call/cc sessions (operand/tail/nested positions, stored and re-entered continuations, later top-level forms), three-way differential + independent CPS reference interpreter as oracle.',
